@@ -124,13 +124,13 @@ def finalize(plan):
             s['must_skip'] = True
         elif k == 'len':
             w = bufrgen.walk(stream, s['start'])
-            if w is None or w['end'] is None:
-                s['must_skip'] = True      # declared lengths run off the stream
-            elif stream[w['end']:w['end'] + 4] == b'7777':
-                lay['ok'], lay['why'] = False, 'length damage still lands on a stop signature'
-                return lay
-            else:
-                s['must_skip'] = True
+            # the sections no longer add up to the (intact) declared total length: the message must be
+            # refused wherever the declared lengths lead - off the stream, into the octets that follow, or
+            # exactly onto a stop signature that belongs to a later message ("bytes that follow a message
+            # never influence its decoding")
+            s['must_skip'] = True
+            if w is not None and w['end'] is not None and stream[w['end']:w['end'] + 4] == b'7777':
+                s['lands'] = True
         elif k == 'undef':
             sure = f['pos'] in bufrgen.top_level_positions(w0['ids'])
             s['must_skip'] = bool(sure and (w0['nsub'] >= 1 or w0['compressed']))
@@ -441,6 +441,24 @@ def _gen_plan(family, rng, pool, tier):
         seps = [gen_separator(rng)[1].hex() for _ in range(len(items) + 1)]
         if eof:
             seps[-1] = ''
+        elif rng.random() < 0.2:
+            # a section 4 length increased so that the declared lengths lead exactly onto the stop signature
+            # of the NEXT message (or onto a 7777 that the separator holds): alone the damaged message runs
+            # off the input, in the stream it would swallow its successor
+            cand = [i for i in range(len(items)) if bytes.fromhex(items[i]['hex']).find(b'BUFR', 1) < 0 and
+                    (items[i]['fault'] is None or items[i]['fault']['kind'] == 'len')]
+            if cand:
+                i = rng.choice(cand)
+                if i + 1 < len(items) and items[i + 1]['fault'] is None and rng.random() < 0.75:
+                    delta = len(seps[i + 1]) // 2 + len(items[i + 1]['hex']) // 2
+                else:
+                    filler = bytes(rng.randrange(256) for _ in range(rng.choice([0, 0, 1, 2, 5])))
+                    if b'BUFR' in filler + b'7777':
+                        filler = b''
+                    seps[i + 1] = (filler + b'7777').hex() + seps[i + 1]
+                    delta = len(filler) + 4
+                if b'BUFR' not in bytes.fromhex(seps[i + 1]):
+                    items[i]['fault'] = {'kind': 'len', 'section': 4, 'delta': delta}
         front = rng.choice(['api', 'api', 'api', 'api', 'cli-decode', 'cli-info-m', 'cli-info-c', 'cli-split'])
         mode = 'info' if front in ('cli-info-m', 'cli-info-c', 'cli-split') else \
             ('full' if front == 'cli-decode' else rng.choice(['full', 'full', 'info']))
@@ -476,15 +494,22 @@ def _gen_plan(family, rng, pool, tier):
                 if l - k >= 0:
                     faults.append({'kind': 'len', 'section': sec, 'delta': -k})
                 faults.append({'kind': 'len', 'section': sec, 'delta': k})
-        faults = [f for f in faults if bufrgen.apply_fault(raw, f) != raw and
-                  bufrgen.apply_fault(raw, f).find(b'BUFR', 1) < 0]
         front = rng.choice(['api', 'api', 'api', 'api', 'cli-decode', 'cli-info-m', 'cli-split'])
         mode = 'info' if front in ('cli-info-m', 'cli-split') else ('full' if front == 'cli-decode' else
                                                                      rng.choice(['full', 'full', 'info']))
+        order = rng.choice(['AB', 'AB', 'BA', 'BAB'])
+        seps = [gen_separator(rng)[1].hex() if rng.random() < 0.4 else '' for _ in range(4)]
+        # the one increase of every section length that leads the declared lengths exactly onto the stop
+        # signature of the message that follows A (none follows in the order BA)
+        ia = order.index('A')
+        if ia + 1 < len(order):
+            for sec in sorted(w['sections']):
+                faults.append({'kind': 'len', 'section': sec, 'delta': len(seps[ia + 1]) // 2 + len(b['hex']) // 2})
+        faults = [f for f in faults if bufrgen.apply_fault(raw, f) != raw and
+                  bufrgen.apply_fault(raw, f).find(b'BUFR', 1) < 0]
         return {'knobs': {'mode': mode, 'coe': rng.random() < 0.85, 'front': front,
-                          'compiled': None, 'filter': None, 'order': rng.choice(['AB', 'AB', 'BA', 'BAB'])},
-                'items': [_item(a), _item(b)], 'faults': faults,
-                'seps': [gen_separator(rng)[1].hex() if rng.random() < 0.4 else '' for _ in range(4)]}
+                          'compiled': None, 'filter': None, 'order': order},
+                'items': [_item(a), _item(b)], 'faults': faults, 'seps': seps}
 
     if family == 'c12-trunc':
         lim = 1000 if tier == 'quick' else 6000
